@@ -183,7 +183,45 @@ def h_command(ctx, mods, shape):
         ctx.check(core.snot(known), 'InvalidCommandError only for a command word outside the protocol')
 
 
-HARNESSES = {'readbytes': h_readbytes, 'fragop': h_fragop, 'checksum': h_checksum, 'command': h_command}
+def h_foreign_checksum(ctx, mods, shape):
+    """stream 1 (a suspended streaming_shell) gets a WRTE with an arbitrary checksum field while a second command is the
+    one reading the wire: the packet is delivered to nobody unless the checksum matches"""
+    r1 = ctx.int('rid', 1, 2 ** 32 - 1)
+    r2 = ctx.int('rid', 1, 2 ** 32 - 1)
+    p1, p2, q = ctx.bytes('p', 2), ctx.bytes('p', 2), ctx.bytes('q', 1)
+    c = ctx.int('cksum', 0, 2 ** 32 - 1)
+    pk = [cnxn_packet(), sim.frame(b'OKAY', r1, 1), sim.frame(b'WRTE', r1, 1, p1),
+          sim.frame(b'WRTE', r1, 1, p2, checksum=c), sim.frame(b'OKAY', r2, 2), sim.frame(b'WRTE', r2, 2, q), sim.frame(b'CLSE', r2, 2),
+          sim.frame(b'CLSE', r1, 1)]
+    dev = sim.ScriptDevice(ctx, pk)
+    w = World(ctx, mods, dev, impl=shape['impl'])
+    w.try_call('connect')
+    it = w.drv.iterate(w.dev.streaming_shell('a', decode=False))
+    try:
+        first = next(it)
+    except Exception as e:
+        ctx.fail('streaming_shell raised %s' % type(e).__name__, detail=repr(e))
+        return
+    ctx.check(as_sym(p1) == first, 'the first payload is delivered')
+    o = w.try_call('shell', 'b', decode=False)
+    s = core.sum_shim(as_sym(p2)) % 2 ** 32
+    ctx.observe('second', o.kind())
+    if not o.ok:
+        ctx.check(type(o.exc) is mods.exceptions.InvalidChecksumError, 'the reader that meets the corrupted packet raises InvalidChecksumError', detail=repr(o.exc))
+        ctx.check(c != s, 'InvalidChecksumError only for a genuine mismatch')
+        return
+    ctx.check(c == s, 'a packet read on behalf of another stream is parked only if its payload matches its checksum')
+    try:
+        second = next(it)
+    except Exception as e:
+        ctx.observe('gen', type(e).__name__)
+        return
+    ctx.observe('gen', second)
+    ctx.check(c == s, 'a parked packet is delivered to its stream only if its payload matched its checksum')
+    ctx.check(as_sym(p2) == second, 'the parked payload is delivered unchanged')
+
+
+HARNESSES = {'foreign_checksum': h_foreign_checksum, 'readbytes': h_readbytes, 'fragop': h_fragop, 'checksum': h_checksum, 'command': h_command}
 
 NPACKETS = {'shell': 4, 'stat': 4, 'pull': 5}
 
@@ -204,6 +242,7 @@ def shapes(tier, seed):
                     out.append({'h': 'fragop', 'impl': impl, 'op': op, 'points': 3, 'packet': pkt, 'max_paths': 400000})
         for n in range(0, 4 if q else 5):
             out.append({'h': 'checksum', 'impl': impl, 'n': n})
+        out.append({'h': 'foreign_checksum', 'impl': impl})
         for n in (0, 2):
             for where in (0, 1):
                 out.append({'h': 'command', 'impl': impl, 'n': n, 'where': where})
